@@ -28,6 +28,9 @@ SED = [  # (id, property, file, regex, replacement, what)
  ('M-C09-no-rt-shutdown', 'C09', 'des/src/net/runtime/ctx.rs', r'module\.ctx\.async_ext\.write\(\)\.rt\.shutdown\(\);', '', 'async runtime keeps running after shutdown'),
  ('M-C09-wakeup-unguarded', 'C09', 'des/src/net/runtime/events.rs', r'pub\(crate\) fn async_wakeup\(&self\) -> Result<\(\), PanicError> \{\n        if self\.ctx\.active\.load\(SeqCst\) \{', 'pub(crate) fn async_wakeup(&self) -> Result<(), PanicError> {\n        if true {', 'async wake-ups run for inactive modules'),
  ('M-C05-timeout-delay-first', 'C05', 'des/src/time/timeout.rs', r"// First, try polling the future\n        if let Poll::Ready\(v\) = me\.value\.poll\(cx\) \{\n            return Poll::Ready\(Ok\(v\)\);\n        \}\n\n        let delay = me\.delay;", "let delay = me.delay;", 'Timeout never polls the value before the delay'),
+ ('M-C05-sleep-until-late', 'C05', 'des/src/time/sleep.rs', r'pub fn sleep_until\(deadline: SimTime\) -> Sleep \{\n    Sleep::new\(deadline\)', 'pub fn sleep_until(deadline: SimTime) -> Sleep {\n    Sleep::new(deadline + Duration::from_nanos(1))', 'sleep_until waits one tick longer than asked'),
+ ('M-C05-interval-first-tick', 'C05', 'des/src/time/interval.rs', r'internal_interval_at\(SimTime::now\(\), period\)', 'internal_interval_at(SimTime::now() + period, period)', 'the first interval tick is delayed by one period'),
+ ('M-C05-reset-keeps-deadline', 'C05', 'des/src/time/sleep.rs', r'\*me\.deadline = deadline;', 'if me.handle.is_none() { *me.deadline = deadline; }', 'resetting a registered sleep does not store the new deadline'),
  ('M-C20-no-dissolve', 'C20', 'des/src/net/module/ctx/mod.rs', r'gate\.dissolve_paths\(\);', 'let _ = gate;', 'gate cycles never broken on drop'),
  ('M-C01-no-len-dec', 'C01', 'des-cqueue/src/stable/mod.rs', r'if self\.buckets\[index\]\.cancel\(&handle\) \{\n                self\.len -= 1;\n            \}', 'if self.buckets[index].cancel(&handle) {\n            }', 'len not decremented when a bucket event is cancelled'),
  ('M-C02-clock-after-handler', 'C02', 'des/src/runtime/mod.rs', r'SimTime::set_now\(time\);\n\n        event\.handle\(self\);', 'event.handle(self);\n        SimTime::set_now(time);', 'clock written after the handler ran'),
